@@ -131,6 +131,27 @@ class C05i(Monitor):
             r.report("C05", "main-open-in:" + s.state("Tank"), f"mains valve open in tank state {s.state('Tank')}")
 
 
+class C05t(Monitor):
+    """the mains valve is never open for longer than the safety limit (6 h in low; 2 h in fill): observed on the pin, whatever
+    the tank controller believes — a poll chain that died silently with the valve open is counted like any other overrun"""
+    pid = "C05"
+
+    def attach(self, r):
+        self.since = None
+
+    def settled(self, r):
+        s = r.sys
+        now = r.world.now_us
+        if s.pin_on("main"):
+            if getattr(self, "since", None) is None:
+                self.since = now
+            elif now - self.since > (6 * 3600 + 60) * 1_000_000:
+                st = s.state("Tank") if _alive(r, "Tank") else "DEAD"
+                r.report("C05", "main-valve-open-too-long:" + st, f"the mains valve has been open for {(now - self.since) / 3.6e9:.2f} h (limit 6 h in low, 2 h in fill); tank controller: {st}")
+        else:
+            self.since = None
+
+
 class C06a(Monitor):
     pid = "C06"
 
@@ -801,7 +822,7 @@ class C04a(Monitor):
             r.report("C04", "not-halted-with-tank-too-low:" + st, f"the tank level has read below too_low (or the sensor has been dead) for {(now - self.below_since) / 1e6:.0f} s, starting while the tank controller was running past its initial fill; tank controller now: {st}, filtration: {f} (not halted)")
 
 
-SETTLED_MONITORS = [C04a, C01, C01b, C02, C05i, C06a, C07a, C08, C12a, C12b, C13a, C13c, C15a, C16a, C17a, Liveness, Timed, PhaseTimes, WinterCycle, BackwashDue]
+SETTLED_MONITORS = [C04a, C01, C01b, C02, C05i, C05t, C06a, C07a, C08, C12a, C12b, C13a, C13c, C15a, C16a, C17a, Liveness, Timed, PhaseTimes, WinterCycle, BackwashDue]
 
 
 def all_monitors():
